@@ -325,7 +325,6 @@ struct PStateM {
     known_bad_patches: std::collections::HashSet<usize>,
 }
 #[derive(Deserialize)]
-#[allow(dead_code)]
 struct EventM {
     app_id: String,
     arch: String,
@@ -340,7 +339,9 @@ struct EventM {
 #[derive(Deserialize)]
 struct SStateM {
     release_version: String,
-    queued_events: Vec<serde_json::Value>,
+    // read as the library's Vec<PatchEvent> is: element by element through the struct's own visitor (a generic
+    // serde_json::Value in between would be stricter about unknown members and would swallow repeated ones)
+    queued_events: Vec<EventM>,
 }
 
 fn pr_meta(m: &Option<MetaM>) -> String {
@@ -402,16 +403,15 @@ pub fn abs_sj(storage: &Path) -> String {
         Ok(s) => {
             let mut evs = vec![];
             for e in &s.queued_events {
-                if serde_json::from_value::<EventM>(e.clone()).is_err() {
-                    return "G".into();
-                }
-                let t = e.get("type").and_then(|x| x.as_str()).unwrap_or("");
                 if !["__patch_install__", "__patch_install_failure__", "__patch_download__"]
-                    .contains(&t)
+                    .contains(&e.identifier.as_str())
                 {
                     return "G".into();
                 }
-                evs.push(event_string(e));
+                evs.push(event_string(&serde_json::json!({
+                    "app_id": e.app_id, "arch": e.arch, "type": e.identifier, "patch_number": e.patch_number,
+                    "platform": e.platform, "release_version": e.release_version, "timestamp": e.timestamp,
+                    "message": e.message})));
             }
             format!("{}/[{}]", hx(&s.release_version), evs.join(","))
         }
@@ -484,6 +484,8 @@ pub fn abs_dls(cache: &Path) -> String {
     items.into_iter().map(|x| x.2).collect::<Vec<_>>().join(",")
 }
 
+static STUCK_THREADS: std::sync::atomic::AtomicUsize = std::sync::atomic::AtomicUsize::new(0);
+
 pub fn wait_quiescent() {
     // all helper threads (event reports, decompression) have exited when only this thread is left
     let start = std::time::Instant::now();
@@ -497,13 +499,19 @@ pub fn wait_quiescent() {
                     .flatten()
             })
             .unwrap_or(usize::MAX);
-        // the scripted HTTP server keeps one accept thread for the whole run
-        let base = if crate::http::enabled() { 2 } else { 1 };
+        // the scripted HTTP server keeps one accept thread for the whole run; threads that were given up on earlier
+        // (reported once, below) stay where they are
+        let base = (if crate::http::enabled() { 2 } else { 1 }) + STUCK_THREADS.load(std::sync::atomic::Ordering::SeqCst);
         if n <= base {
             return;
         }
-        if start.elapsed().as_secs() > 20 {
-            eprintln!("uvh: threads did not finish");
+        // (once a thread has been given up on, later ones of the same process get 3 s: the report has been made)
+        let limit = if STUCK_THREADS.load(std::sync::atomic::Ordering::SeqCst) > 0 { 3 } else { 20 };
+        if start.elapsed().as_secs() > limit {
+            // a library thread that does not end: reported on the trace (a violation of "no thread hangs" for the
+            // checks that read it), and not waited for again
+            println!("THREAD-STUCK {} thread(s) of the library still alive {} s after the call returned", n - base, limit);
+            STUCK_THREADS.fetch_add(n - base, std::sync::atomic::Ordering::SeqCst);
             return;
         }
         std::thread::sleep(std::time::Duration::from_micros(200));
@@ -769,7 +777,22 @@ impl World {
             }
             ["setart", n, b] => {
                 std::fs::create_dir_all(pdir(n)).unwrap();
-                std::fs::write(pdir(n).join("dlc.vmcode"), self.blob(b)).unwrap();
+                // a replacement of the same length keeps the file's timestamps (cp -p, a restored backup, a coarse
+                // clock): whatever (path, size, mtime) may have been remembered about the old content still matches
+                let f = pdir(n).join("dlc.vmcode");
+                let old = std::fs::metadata(&f).ok();
+                let new = self.blob(b);
+                let keep = old.as_ref().map_or(false, |m| m.is_file() && m.len() == new.len() as u64);
+                std::fs::write(&f, new).unwrap();
+                if keep {
+                    let m = old.unwrap();
+                    if let (Ok(mt), Ok(at)) = (m.modified(), m.accessed()) {
+                        let t = std::fs::FileTimes::new().set_modified(mt).set_accessed(at);
+                        if let Ok(fh) = std::fs::OpenOptions::new().write(true).open(&f) {
+                            let _ = fh.set_times(t);
+                        }
+                    }
+                }
             }
             ["rawpj", b] => {
                 *RAW_PJ.lock().unwrap() = Some(self.blob(b));
